@@ -1,6 +1,8 @@
 (* C14 — Any layout file is either rejected with a message or runs without crashing.
-   Statements only; proofs are in TM.ParserLemmas, TM.OdometerLemmas, TM.ConvertLemmas. *)
-From TM Require Import Base Json RustOps Fancy Mapper Parser Convert RustOpsLemmas ParserLemmas OdometerLemmas ExpandLemmas.
+   Statements only; proofs are in TM.ParserLemmas, TM.OdometerLemmas, TM.ConvertLemmas,
+   TM.ExpandLemmas and TM.LoadedWf. *)
+From TM Require Import Base Json RustOps Fancy Mapper Parser Convert RustOpsLemmas ParserLemmas OdometerLemmas ExpandLemmas LoadedWf.
+From TM Require Import MapperTotal.
 
 (* Loading (parse_layout_from_json, then convert) returns Ok or Err on EVERY
    serde_json::Value: every modelled panic site of the parser and of the
@@ -15,6 +17,36 @@ Print Assumptions C14_loader_total.
 Theorem C14_converter_total : forall (f : fancy_layout) (site : string), convert f <> Panic site.
 Proof. exact convert_total. Qed.
 Print Assumptions C14_converter_total.
+
+(* Every layout that loading accepts satisfies what Mapper::for_layout needs in
+   order not to panic (Mapper.for_layout_ok: every trigger non-empty, no
+   duplicate key inside one `from` or one `to`).  [C14_mapper_total : for_layout_ok
+   L -> no reachable state and event make the mapper panic]: see the mapper half
+   below (C14_mapper_constructor_total, C14_mapper_index_loops_in_range). *)
+Theorem C14_accepted_is_wf : forall (j : json) (L : layout), load j = Ok L -> for_layout_ok L = true.
+Proof. exact accepted_is_wf. Qed.
+Print Assumptions C14_accepted_is_wf.
+
+(* Mapper half (lemmas in TM.MapperTotal).  The constructor Mapper::for_layout
+   panics exactly when a trigger is empty or a key is repeated inside one
+   trigger / one output: for_layout_ok is the negation of those conditions ... *)
+Theorem C14_mapper_constructor_total :
+  forall L, for_layout_ok L = true <-> (forall m, In m L -> m_from m <> [] /\ NoDup (m_from m) /\ NoDup (m_to m)).
+Proof. exact for_layout_ok_spec. Qed.
+Print Assumptions C14_mapper_constructor_total.
+
+(* ... and in EVERY mapper state (reachable or not) and for EVERY key, the two
+   "i from len-1 down to 0, remove_mapping(i)" loops of key_transforms.rs (the
+   model's release_loop, started at the current length by newly_release and
+   release_absorbed_keys) never index active_mappings out of range, although
+   remove_mapping shortens the vector inside the loop.  (All other operations of
+   the mapper model are total: filters, appends, reverse loops that remove at
+   the current index.)  Together with C14_accepted_is_wf this gives "every
+   accepted layout can be installed and driven without panicking". *)
+Theorem C14_mapper_index_loops_in_range :
+  forall (k : key) (s : state), release_loop_oob (length (act s)) k s = false.
+Proof. exact release_loop_calls_in_range. Qed.
+Print Assumptions C14_mapper_index_loops_in_range.
 
 (* parse_layout_from_json returns Ok or Err on EVERY serde_json::Value: each of
    its indexing, slicing, `len()-1` and unwrap sites is guarded. *)
@@ -35,4 +67,18 @@ Print Assumptions C14_odometer_total.
 Example C14_example :
   tuples [2; 3]%nat = [[0; 0]; [1; 0]; [0; 1]; [1; 1]; [0; 2]; [1; 2]]%nat
   /\ parse_layout (JObj [(lit "mappings", JArr [JObj [(lit "from", JArr []); (lit "to", JNull)]])]) = Err.
+Proof. vm_compute. split; reflexivity. Qed.
+
+(* an accepted layout: {"from":"LEFTSHIFT","to":"@s"}, {"from":"RIGHTSHIFT","to":"@s"},
+   {"from":["@s",{"row":"A"}],"to":{"letters":"aB"}}; and a rejected one (finding
+   8.6 before the repair): {"from":["A","A"],"to":"B"} *)
+Example C14_accepted_example :
+  let j := JObj [(lit "mappings", JArr [
+             JObj [(lit "from", JStr (lit "LEFTSHIFT")); (lit "to", JStr (lit "@s"))];
+             JObj [(lit "from", JStr (lit "RIGHTSHIFT")); (lit "to", JStr (lit "@s"))];
+             JObj [(lit "from", JArr [JStr (lit "@s"); JObj [(lit "row", JStr (lit "A"))]]);
+                   (lit "to", JObj [(lit "letters", JStr (lit "aB"))])]])] in
+  load j = Ok [ mkMapping [42; 30]%N [30]%N RNormal []; mkMapping [42; 31]%N [42; 48]%N RNormal [];
+                mkMapping [54; 30]%N [30]%N RNormal []; mkMapping [54; 31]%N [54; 48]%N RNormal [] ]
+  /\ load (JObj [(lit "mappings", JArr [JObj [(lit "from", JArr [JStr (lit "A"); JStr (lit "A")]); (lit "to", JStr (lit "B"))]])]) = Err.
 Proof. vm_compute. split; reflexivity. Qed.
